@@ -40,6 +40,38 @@ func genC15(seed uint64, tier string) *Plan {
 	popIDs := []int64{}
 	val := int64(0)
 	for i := 0; i < n; i++ {
+		if r.chance(0.18) {
+			// compound item: 2..3 non-blocking operations issued back to back by one client task, so
+			// that they all take effect before any waiter woken by the first of them runs again
+			k := r.rng(2, 3)
+			it := Item{Op: "seq"}
+			for j := 0; j < k; j++ {
+				switch y := r.intn(10); {
+				case y < 4:
+					val++
+					it.S = append(it.S, "pushnb")
+					it.A = append(it.A, int64(r.intn(2)), val)
+				case y < 8:
+					it.S = append(it.S, "popnb")
+					it.A = append(it.A, 0, 0)
+				case y < 9 && len(popIDs) > 0:
+					it.S = append(it.S, "cancel")
+					it.A = append(it.A, popIDs[r.intn(len(popIDs))], 0)
+				default:
+					if r.chance(0.3) {
+						it.S = append(it.S, "close")
+					} else {
+						val++
+						it.S = append(it.S, "pushnb")
+						it.A = append(it.A[:len(it.A):len(it.A)], int64(r.intn(2)), val)
+						continue
+					}
+					it.A = append(it.A, 0, 0)
+				}
+			}
+			p.Items = append(p.Items, it)
+			continue
+		}
 		x := r.intn(wPush + wPop + wCancel + wClose)
 		switch {
 		case x < wPush:
@@ -110,6 +142,8 @@ type qHistOp struct {
 func runQueue(s *sim) {
 	plan := s.plan
 	capn := plan.ki("cap", 1)
+	// one P: operations issued back to back by one task are not interleaved with goroutines they wake
+	defer runtime.GOMAXPROCS(runtime.GOMAXPROCS(1))
 	q := newRpcQueue(capn)
 	var stamp int64
 	next := func() int64 { stamp++; return stamp }
@@ -120,6 +154,15 @@ func runQueue(s *sim) {
 	var windowPop atomic.Pointer[qop] // the pop whose window cancel is armed
 	var bcastDone atomic.Int32
 	cancelled := map[int64]bool{}
+	lenAtClose := -1 // queue length measured by the closing task right after Close returned
+	closeAndMeasure := func() {
+		q.Close()
+		q.queueMu.Lock()
+		if lenAtClose < 0 {
+			lenAtClose = q.queue.Len()
+		}
+		q.queueMu.Unlock()
+	}
 
 	verifYieldFn = func(point int) {
 		switch point {
@@ -161,6 +204,9 @@ func runQueue(s *sim) {
 		q.queueMu.Unlock()
 		if ln > capn {
 			s.violate("C15", "capacity", "C15/capacity", "queue holds %d > capacity %d", ln, capn)
+		}
+		if lenAtClose >= 0 && ln > lenAtClose {
+			s.violate("C15", "closed", "C15/push-accepted-after-close", "queue held %d RPCs when Close returned and holds %d now: a push was accepted by a closed queue", lenAtClose, ln)
 		}
 		for _, op := range ops {
 			if !op.started || op.ret != 0 {
@@ -276,6 +322,117 @@ func runQueue(s *sim) {
 					s.logf("QWINDOW cancel pop id=%d", op.popID)
 				}
 			}
+		case "seq":
+			// sub-operations run in one goroutine without yielding in between
+			type sub struct {
+				op   *qop
+				kind string
+			}
+			var subs []sub
+			for j, k := range it.S {
+				a0, a1 := it.a(2*j), it.a(2*j+1)
+				so := &qop{idx: i, started: true}
+				switch k {
+				case "pushnb":
+					so.kind, so.urgent, so.val = "push", a0 != 0, a1
+				case "popnb":
+					so.kind = "pop"
+					so.popID = -1 - int64(len(ops)) - int64(j)
+				case "cancel":
+					if pops[a0] == nil {
+						continue
+					}
+					so.kind, so.popID = "cancel", a0
+				case "close":
+					so.kind = "close"
+				default:
+					continue
+				}
+				subs = append(subs, sub{so, k})
+			}
+			op.started = false
+			s.logf("QCALL %d seq %v %v", i, it.S, it.A)
+			if len(subs) > 1 {
+				s.probe("compound_item")
+			}
+			done := make(chan struct{})
+			dead, deadCancel := context.WithCancel(context.Background())
+			deadCancel()
+			go func() {
+				defer close(done)
+				for _, sb := range subs {
+					so := sb.op
+					so.call = next()
+					switch sb.kind {
+					case "pushnb":
+						rpc := &RPC{}
+						vals[rpc] = so.val
+						func() {
+							defer func() {
+								if r := recover(); r != nil {
+									so.out = "panic-closed"
+								}
+							}()
+							var err error
+							if so.urgent {
+								err = q.UrgentPush(rpc, false)
+							} else {
+								err = q.Push(rpc, false)
+							}
+							if err == nil {
+								so.out = "ok"
+							} else if err == ErrQueueFull {
+								so.out = "full"
+							} else {
+								so.out = "err:" + err.Error()
+							}
+						}()
+					case "popnb":
+						rpc, err := q.Pop(dead) // context already cancelled: returns at once
+						switch err {
+						case nil:
+							so.out, so.outVal = "val", vals[rpc]
+						case ErrQueueClosed:
+							so.out = "closed"
+						case ErrQueueCancelled:
+							so.out = "cancelled"
+						default:
+							so.out = "err:" + err.Error()
+						}
+					case "cancel":
+						pops[so.popID].cancel()
+						so.out = "ok"
+					case "close":
+						closeAndMeasure()
+						so.out = "ok"
+					}
+					so.ret = next()
+				}
+			}()
+			synctestWait()
+			select {
+			case <-done:
+			default:
+				s.violate("C15", "progress", "C15/progress/nonblocking-op-blocked", "a non-blocking operation of a compound item did not return")
+			}
+			for _, sb := range subs {
+				so := sb.op
+				if so.ret == 0 {
+					continue
+				}
+				if sb.kind == "popnb" {
+					cancelled[so.popID] = true
+					// its context was cancelled before the call: record that as an operation
+					c := &qop{kind: "cancel", popID: so.popID, call: so.call - 0, ret: so.call}
+					_ = c
+				}
+				if sb.kind == "cancel" {
+					cancelled[so.popID] = true
+				}
+				ops = append(ops, so)
+				so.done.Store(true)
+				record(so)
+			}
 		case "cancel":
 			p := pops[it.a(0)]
 			if p == nil {
@@ -305,7 +462,7 @@ func runQueue(s *sim) {
 			if nb > 0 {
 				s.probe("close_with_blocked_ops")
 			}
-			q.Close()
+			closeAndMeasure()
 			op.out = "ok"
 			op.ret = next()
 			record(op)
@@ -420,7 +577,7 @@ func qModel(capn int) porcupine.Model {
 				case "closed":
 					return st.closed, st
 				case "cancelled":
-					return st.cancelled[op.PopID] && len(st.urgent)+len(st.normal) == 0 && !st.closed, st
+					return (st.cancelled[op.PopID] || op.PopID < 0) && len(st.urgent)+len(st.normal) == 0 && !st.closed, st
 				case "val":
 					if st.closed {
 						return false, st
